@@ -473,3 +473,119 @@ class SingleFlashCalculate(_PowerPlant):
 class DoubleFlashCalculate(_PowerPlant):
     key = "geophires_x/SurfacePlantDoubleFlash.py::SurfacePlantDoubleFlash.Calculate"
     plant_int = 4
+
+
+# ------------------------------------------------------------------ district heating plant
+@contract
+class calc_util_factor(Contract):
+    """district-heating supply split: 'geothermal plus peaking supply equals demand and geothermal supply never exceeds
+    what the wells deliver' - per day of every operating year; the interpolated well output of a day is an uninterpreted
+    value (np.interp, A3)"""
+    key = "geophires_x/SurfacePlantDistrictHeating.py::SurfacePlantDistrictHeating.calc_util_factor"
+    params = dict(self=ObjAt("model.surfaceplant"), heat_produced=NdOf("real"), time_steps_per_year=Int)
+    result = None
+    property_ids = ("C02",)
+    summarise_ranges_longer_than = 32      # the inner `for j in range(0, 365)` is summarised, not unrolled
+
+    def snapshot(self, cfg):
+        return model_after_reading(2, 7)
+
+    def heap(self, cfg):
+        return {"model.surfaceplant.plant_lifetime.value": Int, "model.surfaceplant.daily_heating_demand.value": NdOf("real")}
+
+    def requires(self, s):
+        return {"lifetime": s.self.plant_lifetime.value >= 1, "steps": s.time_steps_per_year >= 1,
+                "a_year_of_daily_demand": Len(s.self.daily_heating_demand.value) == 365,
+                "heat_output_series_nonempty": Len(s.heat_produced) >= 1}
+
+    def result_at_call(self, env):
+        return (NdOf("real"), Real, NdOf("real"), Real, NdOf("real"), NdOf("real"))   # the real one is a 6-element list
+
+    @staticmethod
+    def _inv_days(s, i, W):
+        sp = s.self
+        d = sp.daily_heating_demand.value
+        used, peak, stored = s.actual_geothermal_used, s.instantaneous_peaking_boiler_demand, s.current_heat_output_stored
+        L = sp.plant_lifetime.value
+        return {"lengths": And(Len(used) == L * 365, Len(peak) == L * 365, Len(stored) == L * 365,
+                               Len(s.util_factor_array) == L, Len(s.annual_ng_demand) == L),
+                "supply_meets_demand": ForAll(0, 365 * i, lambda k: used[k] + peak[k] == d[k % 365] / 24),
+                "peaking_supply_nonneg": ForAll(0, 365 * i, lambda k: peak[k] >= 0.0),
+                "geothermal_supply_within_well_output": ForAll(0, 365 * i, lambda k: used[k] <= stored[k]),
+                "untouched_beyond": ForAll(365 * i, 365 * L, lambda k: peak[k] == 0.0)}
+
+    loop_invariants = {1: lambda s, i, W: calc_util_factor._inv_days(s, i, W)}
+
+    def ensures(self, s, r):
+        L = s.self.plant_lifetime.value
+        d = s.self.daily_heating_demand.value
+        used, peak = r[4], r[5]
+        return {"one_entry_per_year": And(Len(r[0]) == L, Len(r[2]) == L),
+                "one_entry_per_day": And(Len(used) == 365 * L, Len(peak) == 365 * L),
+                "geothermal_plus_peaking_supply_equals_demand": ForAll(
+                    0, 365 * L, lambda k: used[k] + peak[k] == d[k % 365] / 24),
+                "peaking_supply_is_never_negative": ForAll(0, 365 * L, lambda k: peak[k] >= 0.0)}
+
+
+def _per_year_inv(pairs):
+    def inv(s, i, W):
+        sp = s.self
+        tpy, L = s.model.economics.timestepsperyear.value, sp.plant_lifetime.value
+        out = {}
+        for k, series_of in enumerate(pairs):
+            out[f"len{k}"] = Len(W[k]) == L
+            out[f"filled{k}"] = ForAll(0, i, lambda y, k=k, series_of=series_of: W[k][y] == year_integral(
+                series_of(s), y, tpy, sp.util_factor_array.value[y]))
+        return out
+    return inv
+
+
+@contract
+class DistrictHeatingCalculate(_DirectUsePlant):
+    """per-step balance and annual figures of the district-heating plant; its annual figures use the YEAR's utilization
+    factor (util_factor_array[y]) where the other plants use one factor"""
+    key = "geophires_x/SurfacePlantDistrictHeating.py::SurfacePlantDistrictHeating.Calculate"
+    property_ids = ("C02",)
+    plant_int = 7
+    assumptions = ("district heating: the daily demand profile has 365 entries (what CalculateDHDemand produces - not under "
+                   "contract); the interpolated well output of a day is an uninterpreted value (np.interp, A3)",)
+    loop_invariants = {
+        "self.HeatkWhExtracted.value,self.PumpingkWh.value": _per_year_inv(
+            [lambda s: s.self.HeatExtracted.value, lambda s: s.model.wellbores.PumpingPower.value]),
+        "self.HeatkWhProduced.value": _per_year_inv([lambda s: s.self.HeatProduced.value]),
+    }
+
+    def heap(self, cfg):
+        h = _DirectUsePlant.heap(self, cfg)
+        h["model.surfaceplant.daily_heating_demand.value"] = NdOf("real")
+        return h
+
+    def requires(self, s):
+        out = _DirectUsePlant.requires(self, s)
+        out["a_year_of_daily_demand"] = Len(s.self.daily_heating_demand.value) == 365    # what CalculateDHDemand leaves
+        return out
+
+    def ensures(self, s, r):
+        sp, wb = s.self, s.model.wellbores
+        N = Len(wb.ProducedTemperature.value)
+        L, tpy = sp.plant_lifetime.value, s.model.economics.timestepsperyear.value
+        flow = wb.nprod.value * wb.prodwellflowrate.value * s.model.reserv.cpwater.value
+        yi = lambda series: (lambda y: year_integral(series, y, tpy, sp.util_factor_array.value[y]))
+        return {
+            "heat_extracted_is_flow_times_cp_times_temperature_drop": And(
+                Len(sp.HeatExtracted.value) == N,
+                ForAll(0, N, lambda i: sp.HeatExtracted.value[i]
+                       == flow * (wb.ProducedTemperature.value[i] - wb.Tinj.value) / 1E6)),
+            "useful_heat_is_extracted_heat_times_efficiency": ForAll(
+                0, N, lambda i: sp.HeatProduced.value[i] == sp.HeatExtracted.value[i] * sp.enduse_efficiency_factor.value),
+            "annual_heat_extracted_uses_the_year's_utilization": And(Len(sp.HeatkWhExtracted.value) == L, ForAll(
+                0, L, lambda y: sp.HeatkWhExtracted.value[y] == yi(sp.HeatExtracted.value)(y))),
+            "annual_pumping_electricity_uses_the_year's_utilization": And(Len(sp.PumpingkWh.value) == L, ForAll(
+                0, L, lambda y: sp.PumpingkWh.value[y] == yi(wb.PumpingPower.value)(y))),
+            "annual_heat_produced_uses_the_year's_utilization": And(Len(sp.HeatkWhProduced.value) == L, ForAll(
+                0, L, lambda y: sp.HeatkWhProduced.value[y] == yi(sp.HeatProduced.value)(y))),
+            "remaining_heat_is_initial_minus_cumulative_extracted": ForAll(
+                0, L, lambda y: sp.RemainingReservoirHeatContent.value[y]
+                == s.model.reserv.InitialReservoirHeatContent.value
+                - Sum(0, y + 1, lambda k: sp.HeatkWhExtracted.value[k]) * 3600 * 1E3 / 1E15),
+        }
